@@ -8,6 +8,10 @@ def run(tier, seed):
     deductive(rep, "C04", ["markdown_it.rules_block.html_block.html_block"], "contracts.block")
     import contracts.rxrules as RXR
     deductive(rep, "C04", [RXR.QH], "contracts.rxrules")
+    # properly nested output rests on balanced token streams (C02): the table rule - the one block rule whose pushes sit in
+    # nested loops with early exits - is re-verified here with all its invariants (every level of th/td/tr/thead/tbody closes)
+    import contracts.tablec as TBC
+    deductive(rep, "C04", TBC.FUNCS, "contracts.tablec", select=lambda q, ob, rel: ob.kind not in ("SAFE", "DEC"))
     import contracts.emph as EM
     deductive(rep, "C04", [EM.QS], "contracts.emph")
     try:
